@@ -1,3 +1,3 @@
 #!/bin/bash
 # setup_cmd: build the simulator, the CLI under test and the fault shim, offline.
-cd /verif && exec ./build.sh --cli
+cd "$(dirname "$0")" && exec ./build.sh --cli
